@@ -273,7 +273,132 @@ func runC16CaseCh(t *testing.T, c c16Case, early chan CaseOut) CaseOut {
 	return out
 }
 
+// runC16Burst: n datagrams in a row to n different unbound services while the sender's subscriber takes
+// `slow` (virtual) per notice: every one of them is reported, once, to the sender only.
+func runC16Burst(t *testing.T, topo, src, dst string, n int, slow time.Duration, extra int) CaseOut {
+	var out CaseOut
+	out.Nontrivial = true
+	bubble(t, func(t *testing.T) {
+		var tp c10Topo
+		for _, x := range c10Topos() {
+			if x.Name == topo {
+				tp = x
+			}
+		}
+		m := newMesh(defaultConsts, tp.Names...)
+		for _, e := range tp.Edges {
+			m.upEdge(e)
+		}
+		m.closure(1)
+		done := make(chan struct{})
+		log := &noticeLog{got: map[string][]netceptor.UnreachableNotification{}}
+		for i := 0; i < extra; i++ {
+			pc, err := m.nodes[src].ListenPacket([]string{"snx", "sn", "sndd"}[i])
+			if err != nil {
+				out.violate("harness:c16-listen", "%v", err)
+				return
+			}
+			log.watch(fmt.Sprintf("%s:o%d", src, i), pc, done)
+		}
+		snd, err := m.nodes[src].ListenPacket("snd")
+		if err != nil {
+			out.violate("harness:c16-listen", "%v", err)
+			return
+		}
+		ch := snd.SubscribeUnreachable(done)
+		var mu sync.Mutex
+		var got []netceptor.UnreachableNotification
+		go func() {
+			for nt := range ch {
+				mu.Lock()
+				got = append(got, nt)
+				mu.Unlock()
+				if slow > 0 {
+					time.Sleep(slow)
+				}
+			}
+		}()
+		synctest.Wait()
+		for i := 0; i < n; i++ {
+			if _, err := snd.WriteTo([]byte("hello"), m.nodes[src].NewAddr(dst, fmt.Sprintf("tgt%d", i))); err != nil {
+				out.violate("unk:write-error", "burst %s->%s #%d: %v", src, dst, i, err)
+			}
+		}
+		synctest.Wait()
+		// deliveries run in their own goroutine: a node whose reader is held up by the slow subscriber
+		// takes the next message only when the subscriber has moved on
+		fin := make(chan struct{})
+		go func() {
+			defer close(fin)
+			for i := 0; i < 2000; i++ {
+				moved := false
+				for _, k := range m.sortedLinks() {
+					if m.sess[k].pending() > 0 {
+						m.deliverAt(k, 0)
+						moved = true
+						break
+					}
+				}
+				if !moved {
+					return
+				}
+			}
+		}()
+		select {
+		case <-fin:
+		case <-time.After(120 * time.Second):
+			out.violate("unk:burst-stuck", "burst %s->%s n=%d: deliveries did not finish in 120 virtual seconds", src, dst, n)
+			return
+		}
+		time.Sleep(time.Duration(n+2)*slow + 2*time.Second)
+		synctest.Wait()
+		m.flush()
+		time.Sleep(time.Duration(n+2)*slow + 2*time.Second)
+		synctest.Wait()
+		mu.Lock()
+		ctx := fmt.Sprintf("burst topo=%s %s->%s n=%d reader=%v extra=%d", topo, src, dst, n, slow, extra)
+		seen := map[string]int{}
+		for _, nt := range got {
+			seen[nt.ToService]++
+			if nt.Problem != netceptor.ProblemServiceUnknown || nt.FromNode != src || nt.FromService != "snd" || nt.ToNode != dst || nt.ReceivedFromNode != dst {
+				out.violate("unk:notice-fields", "%s: notice %+v does not name the original packet", ctx, nt)
+			}
+		}
+		for i := 0; i < n; i++ {
+			svc := fmt.Sprintf("tgt%d", i)
+			if seen[svc] != 1 {
+				out.violate(fmt.Sprintf("unk:burst-notice-count:%d", seen[svc]), "%s: %d notices for %s (all notices by service: %v)", ctx, seen[svc], svc, seen)
+			}
+		}
+		mu.Unlock()
+		close(done)
+		synctest.Wait()
+		log.mu.Lock()
+		for label, ns := range log.got {
+			if len(ns) > 0 {
+				out.violate("unk:notice-on-foreign-socket", "%s: socket %s received %+v", ctx, label, ns)
+			}
+		}
+		log.mu.Unlock()
+		out.Outcome = fmt.Sprintf("burst n=%d slow=%v", n, slow > 0)
+		m.end()
+	})
+	return out
+}
+
 func runC16(w *W) {
+	for _, pr := range [][3]string{{"chain2", "a", "b"}, {"chain3", "a", "c"}, {"square", "a", "c"}} {
+		for _, n := range []int{1, 2, 3, 5} {
+			for _, slow := range []time.Duration{0, 100 * time.Millisecond} {
+				for _, extra := range []int{0, 1} {
+					pr, n, slow, extra := pr, n, slow, extra
+					w.Case(fmt.Sprintf("burst topo=%s %s->%s n=%d reader=%v extra=%d", pr[0], pr[1], pr[2], n, slow, extra), func() CaseOut {
+						return runC16Burst(w.T, pr[0], pr[1], pr[2], n, slow, extra)
+					})
+				}
+			}
+		}
+	}
 	type pair struct{ topo, src, dst string }
 	pairs := []pair{{"chain2", "a", "b"}, {"chain3", "a", "c"}, {"chain3", "b", "a"}, {"chain4", "a", "d"}, {"square", "a", "c"}, {"square", "d", "b"}, {"chain2", "a", "a"}}
 	for _, p := range pairs {
@@ -358,7 +483,7 @@ func init() {
 		ID:        "C16",
 		Level:     "model_checking",
 		Technique: "exhaustive enumeration of (topology, sender, target, moment of closing relative to every delivery step, number of unrelated sockets) on real nodes in a synctest bubble with harness-owned links; every socket of every node is subscribed and must stay silent except the sender's",
-		Rule: "chains of 1-3 hops, the two-path square and local delivery; target service never bound / closed before the send / closed after each of 0..hops+1 deliveries of the send / silently dropped by a firewall rule at the destination or at a transit node; 0, 1, 3 unrelated subscribed sockets on every node (names of the same length as, a prefix of, an extension of the sender name); stream dials (never bound, closed before, drop rule) on 1-3 hop paths, one process each. " +
+		Rule: "chains of 1-3 hops, the two-path square and local delivery; target service never bound / closed before the send / closed after each of 0..hops+1 deliveries of the send / silently dropped by a firewall rule at the destination or at a transit node; 0, 1, 3 unrelated subscribed sockets on every node (names of the same length as, a prefix of, an extension of the sender name); stream dials (never bound, closed before, drop rule) on 1-3 hop paths, one process each; bursts of 1, 2, 3, 5 datagrams to as many unbound services with a subscriber that reads at once or takes 100 ms per notice. " +
 			"Every case is a distinct configuration and non-trivial. Oracle: exactly one `service unknown` notice, on the sender's socket only, echoing source and destination, reported by the destination node; none for dropped packets; a dial ends within 5 virtual seconds because of the notice (and only by its time-outs when the packet is dropped).",
 		Assumptions: []string{"a datagram that was already handed to a live listener when it closed is outside the statement's premise (counted in counters.handed_to_listener_before_close)"},
 		Run:         runC16,
